@@ -3,6 +3,10 @@ package main
 import (
 	"bytes"
 	"fmt"
+	"github.com/relex/slog-agent/base/bconfig"
+	"github.com/relex/slog-agent/input/sysloginput"
+	"github.com/relex/slog-agent/transform"
+	"github.com/relex/slog-agent/util"
 	"math/rand"
 	"regexp"
 	"strconv"
@@ -46,6 +50,15 @@ func dumpCounters(mf *promreg.MetricFactory) map[string]int64 {
 
 var parseSeq int
 
+// extraction stage of the composite cases: records whose message starts with DROPME are dropped by an input-stage transform
+const compositeExtractions = `
+- type: drop
+  match:
+    log: !!str-start DROPME
+  percentage: 100
+  metricLabel: early
+`
+
 func (p *parseComp) Impl(c Case) []string {
 	out := make([]string, len(c.Ops))
 	var parser base.LogParser
@@ -56,6 +69,7 @@ func (p *parseComp) Impl(c Case) []string {
 	locs := schema.MustCreateFieldLocators(parseFieldNames)
 	prev := map[string]int64{}
 	for i, o := range c.Ops {
+		o.Name = strings.Replace(o.Name, "parsex ", "parse ", 1)
 		switch o.Name {
 		case "parse cfg":
 			defs.InputLogMaxMessageBytes = int(o.Ints[0])
@@ -73,7 +87,26 @@ func (p *parseComp) Impl(c Case) []string {
 			counter = base.NewLogInputCounter(mf)
 			alloc = base.NewLogAllocator(schema, 1)
 			var err error
-			parser, err = syslogparser.NewParser(logger.WithField("verif", "parse"), alloc, schema, levels, counter)
+			if len(o.Strs) > 0 && o.Strs[0] == "composite" {
+				// the parser as the input builds it (sysloginput.Config.NewParser): syslog parser + extraction transforms
+				transform.Register()
+				var holders []bconfig.LogTransformConfigHolder
+				if e := util.UnmarshalYamlString(compositeExtractions, &holders); e != nil {
+					out[i] = "reject"
+					continue
+				}
+				icfg := &sysloginput.Config{LevelMapping: levels, Extractions: holders}
+				func() {
+					defer func() {
+						if r := recover(); r != nil {
+							err = fmt.Errorf("panic: %v", r)
+						}
+					}()
+					parser, err = icfg.NewParser(logger.WithField("verif", "parse"), alloc, schema, counter)
+				}()
+			} else {
+				parser, err = syslogparser.NewParser(logger.WithField("verif", "parse"), alloc, schema, levels, counter)
+			}
 			if err != nil {
 				out[i] = "reject"
 			} else {
@@ -133,10 +166,13 @@ func (p *parseComp) Impl(c Case) []string {
 func (p *parseComp) Oracle(c Case, impl []string) string {
 	maxMsg, maxRec := 0, 0
 	var levels [][]byte
+	composite := false
 	for i, o := range c.Ops {
+		o.Name = strings.Replace(o.Name, "parsex ", "parse ", 1)
 		if o.Name == "parse cfg" {
 			maxMsg, maxRec = int(o.Ints[0]), int(o.Ints[1])
 			levels = o.Bytes
+			composite = len(o.Strs) > 0 && o.Strs[0] == "composite"
 			continue
 		}
 		got := impl[i]
@@ -166,6 +202,12 @@ func (p *parseComp) Oracle(c Case, impl []string) string {
 			continue
 		}
 		parts := [][]byte{nil, m[2], m[3], m[4], m[5], m[6], m[7], m[8]}
+		if composite && bytes.HasPrefix(m[8], []byte("DROPME")) {
+			if !strings.HasPrefix(got, "drop") {
+				return fmt.Sprintf("line %q must be dropped by the extraction stage: %s", trunc(line), trunc([]byte(got)))
+			}
+			continue
+		}
 		f := strings.Fields(got[:ci])
 		if f[0] != "pass" || len(f) != 12 {
 			return fmt.Sprintf("well-formed line %q not passed: %s", trunc(line), trunc([]byte(got)))
@@ -212,7 +254,7 @@ func trunc(b []byte) []byte {
 func (p *parseComp) Class(c Case, impl []string) string {
 	cls := map[string]bool{}
 	for i, o := range c.Ops {
-		if o.Name != "parse line" {
+		if o.Name != "parse line" && o.Name != "parsex line" {
 			continue
 		}
 		switch {
@@ -353,6 +395,40 @@ func (p *parseComp) Generate(rng *rand.Rand, n int, emit func(Case)) {
 				emit(Case{Ops: ops, Tag: "utf8-cut"})
 			}
 		}
+	}
+	// over-long messages whose last hundred bytes before the cut are all multi-byte, misaligned by 0-4 ASCII bytes in front
+	for _, piece := range []string{"é", "€", "😀", "é€", "😀é"} {
+		for pad := 0; pad < 5; pad++ {
+			for _, lim := range [][2]int{{100, 356}, {150, 406}, {257, 513}} {
+				msg := strings.Repeat("a", pad) + strings.Repeat(piece, (lim[0]+40)/len(piece)+1)
+				ops := []Op{cfgOp(lim[0], lim[1], levelSets[0]), lineOp([]byte("<13>1 2019-08-15T15:50:46Z host app 1 src - "+msg), "wf")}
+				emit(Case{Ops: ops, Tag: "utf8-cut-long"})
+			}
+		}
+	}
+	// the parser as the input stage builds it, with an extraction that drops some records: every message counted once
+	for i := 0; i < n/100+6; i++ {
+		lim := limits[rng.Intn(len(limits))]
+		cfg := cfgOp(lim[0], lim[1], levelSets[rng.Intn(len(levelSets))])
+		cfg.Name = "parsex cfg"
+		cfg.Strs = []string{"composite"}
+		ops := []Op{cfg}
+		for j := 0; j < 8; j++ {
+			var b []byte
+			switch rng.Intn(4) {
+			case 0:
+				b = []byte(fmt.Sprintf("<%d>1 2019-08-15T15:50:46Z host app %d src - DROPME %s", rng.Intn(192), rng.Intn(99), randMsg(rng, rng.Intn(2*lim[0]+1))))
+			case 1:
+				b = wfLine(rng, lim[0])
+				b = b[:rng.Intn(len(b)+1)]
+			default:
+				b = wfLine(rng, lim[0])
+			}
+			lo := lineOp(b, "")
+			lo.Name = "parsex line"
+			ops = append(ops, lo)
+		}
+		emit(Case{Ops: ops, Tag: "composite"})
 	}
 	if n >= 100000 { // real limits, one long record each
 		for _, extra := range []int{-1, 0, 1, 50, 300} {
